@@ -557,6 +557,47 @@ def run(ctx):
     ctx.borrow("c09", "C09-R18", "C18-R15", "'on a non-interactive input': -n makes the I/O non-interactive whichever other switches are on the line - in create_io no effect of one switch "
                "depends on another switch being absent (same rule as C09-R18)")
 
+    # ---------------------------------------------------------------- R16
+    r = ctx.rule("C18-R16", "TABLE", "'typing a choice's value selects it': the line read is trimmed on both sides before it is validated (strip(), not rstrip() / lstrip()) - a "
+                 "leading blank is not part of the answer", reference=1)
+    n16 = 0
+    for ret in q.returns(rfi):
+        for c in [x for x in ast.walk(ret.value)] if ret.value is not None else []:
+            if isinstance(c, ast.Call) and isinstance(c.func, ast.Attribute) and c.func.attr in ("strip", "rstrip", "lstrip") and not c.args:
+                n16 += 1
+                if c.func.attr == "strip":
+                    r.ok("%s: %s" % (rfi.short, norm(c)))
+                else:
+                    r.fail(rfi, c, "answer trimmed with %s()" % c.func.attr, "%s trims the line read with %s() only: ' Batman' is not the choice 'Batman' (rejected, an attempt used) while ' 1' is still "
+                           "accepted as an index, and ' yes' does not confirm" % (rfi.short, c.func.attr))
+    if n16 == 0:
+        r.vacuous_ok = True
+        r.note("%s does not trim what it returns" % rfi.short)
+
+    # ---------------------------------------------------------------- R17
+    r = ctx.rule("C18-R17", "ORDER", "'typing a choice's value selects it' also when the value looks like a number: an entry is looked up by value first and read as an index only when "
+                 "no choice has that value - int(entry) is reached only after the by-value look-up failed", reference=1)
+    n17 = 0
+    for vm in sorted(val.cls.methods.values(), key=lambda f: f.name):
+        vcfg17 = ctx.cfg(vm)
+        ints = [c for c in q.calls(vm) if isinstance(c.func, ast.Name) and c.func.id == "int" and c.args and isinstance(c.args[0], ast.Name)]
+        looks = [c for c in q.calls(vm) if isinstance(c.func, ast.Attribute) and c.func.attr == "index" and is_self_attr(c.func.value, values_attr)]
+        looks += [x for x in walk_no_nested(vm.node) if isinstance(x, ast.Compare) and len(x.ops) == 1 and isinstance(x.ops[0], (ast.In, ast.NotIn)) and is_self_attr(x.comparators[0], values_attr)]
+        if not ints or not looks:
+            continue
+        n17 += 1
+        int_ids = {n.id for c in ints for n in vcfg17.nodes_of(c)}
+        look_ids = {n.id for c in looks for n in vcfg17.nodes_of(c)}
+        loop_heads = [n.id for n in vcfg17.nodes if n.kind in ("loop_body",)]
+        first_int = any(l in vcfg17.reach_strict(i, blocked=loop_heads, exc=True) for i in int_ids for l in look_ids)
+        if first_int:
+            r.fail(vm, ints[0], "int(entry) before the by-value look-up", "%s reads an entry as an index before it looks it up by value: a choice whose value looks like a number is rejected when typed "
+                   "(['8080','3000'] + '3000') or another choice is returned (['1','0','x'] + '1' gives '0')" % vm.short)
+        else:
+            r.ok("%s: by-value look-up first, index second" % vm.short)
+    if n17 == 0:
+        r.vacuous_ok = True
+
     return ctx.results
 
 
